@@ -14,6 +14,19 @@ def chanOffsetsFrom : Nat → List (List Nat) → List Nat
 
 def chanOffsets (maps : List (List Nat)) : List Nat := chanOffsetsFrom 0 maps
 
+/-- `write_channel_data`: `index_offset += len(array)` — the block of each probe in the merged
+channel numbering (rows of `channel_map.npy`, columns of `templates.npy`); differs from the raw
+offsets `chanOffsets` as soon as a channel map has gaps -/
+def chanIndexOffsetsFrom : Nat → List (List Nat) → List Nat
+  | _, [] => []
+  | off, m :: rest => off :: chanIndexOffsetsFrom (off + m.length) rest
+
+def chanIndexOffsets (maps : List (List Nat)) : List Nat := chanIndexOffsetsFrom 0 maps
+
+/-- merged `pc_feature_ind.npy`: channel-index tables shifted by the index offsets -/
+def mergePcInd (maps : List (List Nat)) (tables : List (List (List Nat))) : List (List Nat) :=
+  ((tables.zip (chanIndexOffsets maps)).map fun p => p.1.map fun row => row.map (· + p.2)).flatten
+
 /-- merged `channel_map.npy` -/
 def mergeChannelMaps (maps : List (List Nat)) : List Nat :=
   ((maps.zip (chanOffsets maps)).map fun p => p.1.map (· + p.2)).flatten
